@@ -63,7 +63,7 @@ BRANCHES = "bra beq bne bcc bcs bmi bpl".split()
 
 def phys(mapping: str, addr: int) -> int:
     bank, off = addr >> 16, addr & 0xFFFF
-    if mapping in ("low", "low2", "any"):
+    if mapping in ("low", "low2", "low2u", "any"):
         b = bank - 0x80 if bank >= 0x80 else bank
         return b * 0x8000 + (off & 0x7FFF)
     b = bank - 0xC0 if bank >= 0xC0 else bank - 0x40
@@ -75,6 +75,9 @@ def pick_bank(rng: random.Random, mapping: str, far: bool, used: set[int]) -> in
         if mapping == "low":
             base = rng.choice([0x00, 0x80])
             b = base + (rng.randrange(0, 0x50 if base else 0x70) if far else rng.randrange(0, 8))
+        elif mapping == "low2u":
+            # banks only the second LoROM variant has (0xD0-0xFF)
+            b = 0xD0 + (rng.randrange(0, 0x30) if far else rng.randrange(0, 8))
         elif mapping == "low2":
             b = 0x80 + (rng.randrange(0, 0x50) if far else rng.randrange(0, 8))
         elif mapping == "any":
@@ -539,7 +542,7 @@ class Gen:
     def comment(self) -> Node:
         rng = self.rng
         if rng.random() < 0.5:
-            return stmt("; " + rng.choice(["note", "lda #0x10 ; not code", "{ unbalanced (", "it's fine", "*/ stray", ".macro x("]), "comment")
+            return stmt("; " + rng.choice(["note", "lda #0x10 ; not code", "{ unbalanced (", "it's fine", "*/ stray", ".macro x(", "caf\u00e9 \u2615 \u65e5\u672c\u8a9e", "\u00e9" * 9]), "comment")
         body = rng.choice(["block comment", "multi\nline { ' (\ncomment", "lda #1", "**", "; inner"])
         return stmt(f"/* {body} */", "comment")
 
@@ -886,7 +889,7 @@ class Gen:
                 elif self.mapping == "low":
                     target = (rng.choice([0x00, 0x02, 0x80, 0x85]) << 16) | rng.choice([0x8100, 0x9000, 0xC000])
                 else:
-                    target = (rng.choice([0x80, 0x82, 0x85]) << 16) | rng.choice([0x8100, 0x9000, 0xC000])
+                    target = (rng.choice([0x80, 0x82, 0x85] if "low2_upper" not in f else [0xD1, 0xE0, 0xFF]) << 16) | rng.choice([0x8100, 0x9000, 0xC000])
                 lbl = f"R{self.uid()}"
                 self.globals.append(lbl)
                 self.note_label(lbl)
@@ -905,13 +908,13 @@ class Gen:
                 root.append(stmt(".db " + ", ".join("0" for _ in range(rng.randrange(2, 9)))))  # all-zero bytes over earlier output
             else:
                 root.append(stmt(".db " + ", ".join(self.lit(8) for _ in range(rng.randrange(2, 9)))))
-        if "zero_block" in f and not use_map:
+        if "zero_block" in f and not use_map and "low2_upper" not in f:
             # a block made of zero bytes only, above everything else the program writes (a writer must
             # still write it: the flat image ends with it, and a patch must contain it)
             zb = {"low": 0x0F, "low2": 0x8F, "high": 0xC7, "any": 0xC9}[self.mapping]
             root.append(stmt(f"*={(zb << 16) | 0x9000:#08x}", "stareq"))
             root.append(stmt(rng.choice([".db 0, 0, 0, 0", ".dw 0, 0", ".dl 0", ".db 0"])))
-        if "big_incbin" in f and not use_map and self.mapping != "any":
+        if "big_incbin" in f and not use_map and self.mapping != "any" and "low2_upper" not in f:
             # one contiguous block of more than 64 KiB (spills over the following banks)
             # total length of the contiguous block (the blob plus an optional trailing byte): exact multiples
             # of 65535 and their neighbours are the interesting cases for any writer that splits blocks
@@ -962,6 +965,8 @@ class Gen:
         return None
 
     def pick_section_bank(self, far: bool) -> int:
+        if self.mapping == "low2" and "low2_upper" in self.feats:
+            return pick_bank(self.rng, "low2u", far, self.used_banks)
         if self._custom_banks is not None:
             for _ in range(100):
                 b = self.rng.choice(self._custom_banks)
